@@ -529,6 +529,64 @@ def Ctx.outcome (c : Ctx) (items : List SelItem) (ords : List OrdItem) (limit : 
       | none => .rows []
       | some a => .rows (a.resultRows c.hdrCap items ords limit order)
 
+/-! ### HAVING (root_metric_context.go makeResultSet) -/
+
+/-- `having <the selected field> <op> <threshold>`; op 1 `>`, 2 `>=`, 3 `<`, 4 `<=`
+(`sql.Calc` over the slot's field values; modelled for select lists of ONE item, where the
+predicate of a slot only reads that item's value) -/
+structure Having where
+  op : Nat
+  thr : Int
+  deriving DecidableEq, Repr
+
+def Having.holds (h : Having) (v : Int) : Bool :=
+  match h.op with
+  | 1 => decide (v > h.thr) | 2 => decide (v ≥ h.thr) | 3 => decide (v < h.thr) | 4 => decide (v ≤ h.thr)
+  | _ => false
+
+/-- the per-series block of `makeResultSet`: `notHavingSlots` is built from THIS series' slot
+values and only this series' points are filtered by it -/
+def Row.having (h : Having) (r : Row) : Row :=
+  { r with vals := r.vals.map (fun o => o.map (fun pts => pts.filter (fun sv => h.holds sv.2))) }
+
+def havingRows (h : Option Having) (rows : List Row) : List Row :=
+  match h with
+  | none => rows
+  | some h => rows.map (Row.having h)
+
+/-- the variant with the scratch set hoisted out of the loop over the series (seeded change
+c12-14): a slot rejected for one series stays rejected for every series rendered after it -/
+def havingRowsLeaky (h : Having) : List Nat → List Row → List Row
+  | _, [] => []
+  | bad, r :: rs =>
+    let rejected := r.vals.flatMap (fun o => match o with
+      | some pts => (pts.filter (fun sv => !h.holds sv.2)).map Prod.fst
+      | none => [])
+    let bad' := bad ++ rejected
+    { r with vals := r.vals.map (fun o => o.map (fun pts => pts.filter (fun sv => !bad'.contains sv.1))) }
+      :: havingRowsLeaky h bad' rs
+
+def Ctx.outcomeH (c : Ctx) (items : List SelItem) (ords : List OrdItem) (limit : Nat)
+    (having : Option Having) (order : List Tag) : Outcome :=
+  match c.outcome items ords limit order with
+  | .rows rs => .rows (havingRows having rs)
+  | o => o
+
+/-! ### the physical plan over the live compute nodes (flow/node_choose.go) -/
+
+/-- `BuildPhysicalPlan(database, liveNodes, numOfNodes)`: the live nodes are shuffled (`perm` = the
+shuffle as a list of indexes into `live`), the first `n` become targets, the FIRST TARGET OF THE
+PLAN executes the task, all others only receive. Result: `(node, receiveOnly)`. -/
+def buildPlan (live : List Nat) (n : Nat) (perm : List Nat) : List (Nat × Bool) :=
+  ((perm.filterMap (fun i => live[i]?)).take n).zipIdx.map (fun p => (p.1, p.2 != 0))
+
+/-- the variant that tests the index into the live-node list instead of the position in the plan
+(seeded change c12-13) -/
+def buildPlanByLiveIndex (live : List Nat) (n : Nat) (perm : List Nat) : List (Nat × Bool) :=
+  ((perm.filterMap (fun i => (live[i]?).map (fun x => (x, i != 0)))).take n)
+
+def executors (plan : List (Nat × Bool)) : List Nat := (plan.filter (fun p => !p.2)).map Prod.fst
+
 /-! ### routing of written rows to shards (series/metric/row_broker.go) -/
 
 /-- `BrokerBatchRows.NewShardGroupIterator(n)` + the `HasRowsForNextShard` loop: every row gets
